@@ -68,5 +68,11 @@ theorem hp_key_src : hp_key_args = "host, qt, cl, false" := by decide
 theorem rl_filter_calls_src : rl_filter_calls = "itemFromCache,f.engine.MatchRequest,f.cache.Set" := by decide
 /-- `FilterRequest` never writes the result cache except through the guarded `setInCache`. -/
 theorem hp_request_sets_src : hp_request_sets = "0" := by decide
+/-- The key is the whole 64-bit sum (no mask, no shift). -/
+theorem key_return_src : key_return = "CacheKey(h.Sum64())" := by decide
+/-- The hash-prefix `itemFromCache`: miss, or host mismatch = collision = miss. -/
+theorem hp_item_conds_src : hp_item_conds = "!ok | item.host != host" := by decide
+/-- The custom-filter cache is read under the profile's exact ID. -/
+theorem custom_get_args_src : custom_get_args = "c.ID" := by decide
 
 end Agd.Tie.C12
